@@ -378,8 +378,8 @@ class Polarization(BaseState):
                 )
             self.state = new_state
 
-        #            if operation.renormalize:
-        #               self.state = self.state / jnp.linalg.norm(self.state)
+            if operation.renormalize:
+                self.state = self.state / jnp.linalg.norm(self.state)
         if self.expansion_level == ExpansionLevel.Matrix:
             assert isinstance(self.state, jnp.ndarray)
             assert self.state.shape == (self.dimensions, self.dimensions)
